@@ -670,7 +670,14 @@ pub fn table(g: &Graph, enq: &[Req]) -> Vec<Row> {
         if !matcher(r, view, &nid(n)) {
             continue;
         }
-        let fp = fp_with_omissions(r, wid(w), &nid(n));
+        let mut fp = fp_with_omissions(r, wid(w), &nid(n));
+        if USE_DESCENT_STACK.load(std::sync::atomic::Ordering::Relaxed) {
+            // Engine::apply_in_warp adds the descent chain (portal slots owned by ancestor instances) to a_read: the
+            // admitted footprint of a descended candidate reaches into its ancestors' instances
+            for key in descent_stack(g, w) {
+                fp.a_read.insert(key);
+            }
+        }
         let mut delta = TickDelta::new();
         let ops = match std::panic::catch_unwind(std::panic::AssertUnwindSafe(|| {
             exec(r, view, &nid(n), &mut delta);
@@ -735,7 +742,27 @@ pub fn render_table(rows: &[Row]) -> String {
         .map(|r| {
             let fp = dump_fp(&r.fp)
                 .iter()
-                .map(|(_, keys)| if keys.is_empty() { "-".to_string() } else { keys.iter().map(|k| k.1.clone()).collect::<Vec<_>>().join("+") })
+                .map(|(_, keys)| {
+                    if keys.is_empty() {
+                        "-".to_string()
+                    } else {
+                        // a resource of ANOTHER instance than the candidate's own (descent-chain reads) is printed as
+                        // `W<warp>~<key>`; the model qualifies every resource with its instance
+                        keys.iter()
+                            .map(|k| match k.2 {
+                                Some(ak) => {
+                                    let kw = match ak.owner {
+                                        AttachmentOwner::Node(n) => n.warp_id,
+                                        AttachmentOwner::Edge(e) => e.warp_id,
+                                    };
+                                    if kw == wid(r.req.1) { k.1.clone() } else { format!("W{}~{}", u64::from_be_bytes(kw.0[24..].try_into().unwrap()), k.1) }
+                                }
+                                None => k.1.clone(),
+                            })
+                            .collect::<Vec<_>>()
+                            .join("+")
+                    }
+                })
                 .collect::<Vec<_>>()
                 .join("/");
             let ops = r
